@@ -26,6 +26,7 @@ events:
                                  sized, elements "n" None, "<size>" bytes, "o" anything else; variant picks the concrete
                                  objects.  Refused by the validation: observation `refused <kind>`, nothing else changes;
                                  accepted: the `send` event with the next send id.
+  ["syncclear"]                  harness directive: withdraw the synchronous answers not consumed yet
   ["syncnext", mode]             harness directive, not a model event: the client answers the NEXT produce request
                                  synchronously (the Deferred it returns has already fired).  mode: "none" | "empty" |
                                  "allok" | "allerr:<errno>" | "allfail:<kind>" | "err:<kind>".  On the model's side
@@ -384,6 +385,9 @@ class RealRun(object):
             return "badop"
         if k == "refused":
             return "refused %s" % ob[1]
+        if k == "raised":
+            self.escaped = True
+            return "impl-raised %s" % ob[1]
         if k == "stopreturned":
             self._stop_returned = True
             return None  # harness-only marker (ground truth for "nothing is transmitted after stop() returned")
@@ -488,10 +492,25 @@ class RealRun(object):
         try:
             self._apply(ev)
         except Exception as e:  # noqa: BLE001
-            del self.log[:]
+            # an exception escaped a public call / a timer callback of the Producer (or the scenario is not applicable
+            # to this implementation): what was observed up to it, the exception, and the bookkeeping as it was left
             self.dead = True
+            if _from_afkak(e):
+                self.escaped = True  # (otherwise: a replayed scenario that is not applicable to this implementation)
+            self._override = None
+            self._cur_sid = None
+            try:
+                self.log[:] = [o for o in self.log if o[0] != "timerfired"]
+                obs = self._drain()
+            except Exception:  # noqa: BLE001
+                obs = []
+                del self.log[:]
+            try:
+                st = self.snapshot()
+            except Exception:  # noqa: BLE001
+                st = self.steps[-1][2] if self.steps else "state -"
             line = event_line(ev) if ev[0] != "stop" else "stop %d - -" % (1 if ev[1] else 0)
-            self.steps.append((line, ["impl-raised %s" % type(e).__name__], self.steps[-1][2] if self.steps else "state -"))
+            self.steps.append((line, obs + ["impl-raised %s" % type(e).__name__], st))
 
     def _apply(self, ev):
         if getattr(self, "dead", False):
@@ -500,6 +519,9 @@ class RealRun(object):
         c = self.client
         if op == "syncnext":
             c.sync_queue.append(ev[1])
+            return
+        if op == "syncclear":
+            del c.sync_queue[:]
             return
         self._cur_line = event_line(ev) if op not in ("stop", "advance") else None
         with warnings.catch_warnings():
@@ -568,11 +590,21 @@ class RealRun(object):
         vals = [msg_value(sid, i, s) for i, s in enumerate(msgs)]
         self.sends[sid] = (topic, kb, vals)
         self.next_sid += 1
+        outer_sid = self._cur_sid  # (a send made by a callback inside another send_messages call)
         self._cur_sid = sid
         try:
             d = self.producer.send_messages(topic_name(topic), key=kb, msgs=vals)
+        except Exception as e:  # noqa: BLE001
+            # an exception ESCAPED the public call: an observation of this step (the model has none: a disagreement,
+            # and the ground-truth failure `escaped-exception`); the request's Deferred, if the call got as far as
+            # creating it, is the one of `_outstanding` the harness does not know yet
+            self.log.append(("raised", type(e).__name__))
+            d = next((x for x in self.producer._outstanding if id(x) not in self.dmap), None)
+            if d is None:
+                from twisted.internet.defer import Deferred
+                d = Deferred()
         finally:
-            self._cur_sid = None
+            self._cur_sid = outer_sid
         self.dmap[id(d)] = sid
         self.deferreds[sid] = d
         d.addCallbacks(self._fire_cb, self._fire_cb, callbackArgs=(sid, True), errbackArgs=(sid, False))
@@ -595,6 +627,9 @@ class RealRun(object):
         before = probe.appended
         idx = len(self.steps)
         self._cur_sid = sid
+        # the id is taken BEFORE the call: a callback of another send that fires inside it may make sends of its own
+        # (given back below if the validation refuses the call - nothing can have run inside it then)
+        self.next_sid += 1
         try:
             d = self.producer.send_messages(topic, key=key, msgs=msgs)
         finally:
@@ -604,13 +639,13 @@ class RealRun(object):
             # the validation refused the call: the Deferred it returns was never one of `_outstanding`
             # (a call refused because stop() has begun is the model's `send` event: it uses a send id)
             self.sends.pop(sid, None)
+            self.next_sid = sid
             self.log.append(("refused", kind_of(res.value) if isinstance(res, Failure) else "x:not-failed"))
             d.addErrback(lambda f: None)
             self.flat_lines[len(self.steps)] = None
             self._push(event_line(ev))
             return
         # accepted: the model's `send` event with the next send id
-        self.next_sid += 1
         self.dmap[id(d)] = sid
         self.deferreds[sid] = d
         d.addCallbacks(self._fire_cb, self._fire_cb, callbackArgs=(sid, True), errbackArgs=(sid, False))
@@ -680,7 +715,19 @@ class RealRun(object):
         return [(dc._verif_tid, dc.getTime()) for dc in self.client.reactor.calls]
 
     def outstanding(self):
-        return [self.dmap[id(d)] for d in self.producer._outstanding]
+        return [self.dmap[id(d)] for d in self.producer._outstanding if id(d) in self.dmap]
+
+
+def _from_afkak(exc):
+    """did the exception pass through the library's code (as opposed to: raised by the harness itself because a
+    replayed / shrunk scenario names a request or a send this implementation never made)?"""
+    tb = exc.__traceback__
+    while tb is not None:
+        fn = tb.tb_frame.f_code.co_filename.replace("\\", "/")
+        if "/afkak/" in fn:
+            return True
+        tb = tb.tb_next
+    return False
 
 
 def run_real(scn):
